@@ -126,6 +126,9 @@ struct Mat {
   VectorXd ref;               // ascending reference eigenvalues (HAM: positive ones)
   double norm = 0;
   double cond = 1;  // eigenvector condition number (HAM), 1 for symmetric
+  // clustered spectra: which member of a cluster is returned is judged on the deterministic set only (in the randomised
+  // part the "lowest" clause is judged up to the width of a cluster); 0 for all other families
+  double cluster_span = 0;
 };
 
 static MatrixXd random_orthogonal(vfh::Rng &r, long n) {
@@ -174,10 +177,12 @@ static MatrixXd diag_plus_coupling(vfh::Rng &r, long n, double g, double rho, do
   return A;
 }
 
-static Mat gen_symm(vfh::Rng &r0, long n, int fam) {
+static Mat gen_symm_seeded(uint64_t gen_seed, long n, int fam);
+static Mat gen_symm(vfh::Rng &r0, long n, int fam) { return gen_symm_seeded(r0.next(), n, fam); }
+static Mat gen_symm_seeded(uint64_t gen_seed, long n, int fam) {
   Mat m;
   m.n = n;
-  m.gen_seed = r0.next();
+  m.gen_seed = gen_seed;
   vfh::Rng r(m.gen_seed);
   J p;
   switch (fam) {
@@ -210,6 +215,7 @@ static Mat gen_symm(vfh::Rng &r0, long n, int fam) {
         long cs = r.range(2, 5);
         for (long i = 0; i < n; ++i) L[i] = (double)(i / cs) + w * (double)(i % cs) * r.uni(0.5, 1.0);
         p.d("cluster_width", w).i("cluster_size", cs);
+        m.cluster_span = w * (double)cs;
       } else if (fam == 3) {  // exactly degenerate
         kind = "degenerate";
         long mult = r.range(2, 4);
@@ -399,6 +405,10 @@ static bool judge(vfh::Reporter &R0, const Mat &m, const Cfg &c, const Outcome &
   if (ok) {
     double etol = std::max(10 * c.tolv, 1e-8) * m.cond + slack;
     for (long k = 0; k < ne; ++k) {
+      if (std::fabs(sorted[k] - m.ref[k]) > etol && std::fabs(sorted[k] - m.ref[k]) <= etol + m.cluster_span && advkey.empty()) {
+        R.counter("clustered:other_member_of_the_cluster_returned(judged_on_the_deterministic_set_only)");
+        continue;
+      }
       if (std::fabs(sorted[k] - m.ref[k]) > etol) {
         std::vector<double> refv(m.ref.data(), m.ref.data() + std::min<long>(m.ref.size(), ne + 4));
         std::string key = kp + "not-the-lowest-eigenvalues";
@@ -628,6 +638,23 @@ static void run_adversarial(vfh::Reporter &R) {
         c.matfree = (idx % 3) == 0;
         adv_solve(R, m, c, "adversarial_gram_schmidt", "davidson/gram-schmidt-loses-orthogonality", ++idx);
       }
+    }
+  }
+  // ---- E: clustered spectrum: the solver converges (residual below the tolerance) to a neighbour of the lowest
+  //         root inside a cluster whose spacing is ~20 x the tolerance (instance found by the soak, seed 3)
+  {
+    long idx = 0;
+    Mat m = gen_symm_seeded(((uint64_t)3838796398ULL << 32) | 475311472ULL, 98, 2);
+    m.family = "adversarial_cluster_neighbour";
+    m.cluster_span = 0;
+    const char *combos[][3] = {{"DPR", "min", "normal"}, {"OLSEN", "min", "normal"}, {"DPR", "safe", "normal"}, {"DPR", "min", "strict"}};
+    for (auto &cb : combos) {
+      Cfg c;
+      c.corr = cb[0]; c.upd = cb[1]; c.tol = cb[2];
+      c.tolv = tol_value(c.tol);
+      c.neigen = 1;
+      c.max_space = 97;
+      adv_solve(R, m, c, "adversarial_cluster_neighbour", "davidson/cluster-neighbour-root-returned", ++idx);
     }
   }
   // ---- C: a Ritz value that coincides exactly with a diagonal element (guess indices not coupled among themselves)
